@@ -187,32 +187,44 @@ pub fn run(ctx: &Ctx, rep: &mut Report) {
             }
         }
     }
-    // a payload of 11 000 characters under every type value (std / alloc only: the
-    // no-allocator build cannot hold it): the variant is still decided by the first six bits
+    // payloads of 11 000 .. 350 000 characters (1.4 million in the thorough tier) under every type
+    // value (std / alloc only: the no-allocator build cannot hold them): the variant is still
+    // decided by the first six bits. The lengths lie beyond 2^16 bits, 2^16 bytes, 2^16 groups of
+    // four characters and 2^21 bits, where narrow position counters of an unpacker wrap around.
     if !mon::is_noalloc() {
-        for (i, &ch) in crate::armor::ALPHABET.iter().enumerate() {
-            if !ctx.mine(item) {
-                item += 1;
-                continue;
-            }
-            item += 1;
-            let t = i as u8;
-            let mut chars: Vec<u8> = (0..11_000).map(|_| *r.pick(crate::armor::ALPHABET)).collect();
-            chars[0] = ch;
-            let line = nmea_ref::mk(1, 1, None, &chars, 0);
-            rep.eval();
-            let mut p = Parser::new();
-            let want = variant_of(t);
-            match p.parse(&line, true) {
-                Call::Panic(pi) => rep.violation(PID, format!("panic@{}", pi.loc), format!("11 000-character payload of type {}: {}", t, pi.msg), || J::s("11 000-character payload")),
-                Call::Done(Outcome::Complete(s)) => {
-                    let v = s.message.as_ref().map(|m| m.variant);
-                    rep.class(format!("huge-sentence|t{}|Ok", t));
-                    if v != want || want.is_none() {
-                        rep.violation(PID, format!("sentence-type-{}-wrong-variant", t), format!("11 000-character payload with first character {:?} (type {}) decoded as {:?}, expected {:?}", ch as char, t, v, want), || J::s("11 000-character payload"));
-                    }
+        let mut lens: Vec<usize> = vec![11_000, 87_400, 262_160, 350_000];
+        if ctx.thorough() {
+            lens.push(1_400_000);
+        }
+        for &len in &lens {
+            for (i, &ch) in crate::armor::ALPHABET.iter().enumerate() {
+                if !ctx.mine(item) {
+                    item += 1;
+                    continue;
                 }
-                Call::Done(_) => rep.class(format!("huge-sentence|t{}|Err", t)),
+                item += 1;
+                let t = i as u8;
+                let mut chars: Vec<u8> = (0..len).map(|_| *r.pick(crate::armor::ALPHABET)).collect();
+                chars[0] = ch;
+                let line = nmea_ref::mk(1, 1, None, &chars, 0);
+                rep.eval();
+                let mut p = Parser::new();
+                let want = variant_of(t);
+                let what = format!("{}-character payload", len);
+                match p.parse(&line, true) {
+                    Call::Panic(pi) => rep.violation(PID, format!("panic@{}", pi.loc), format!("{} of type {}: {}", what, t, pi.msg), || J::s(&what)),
+                    Call::Done(Outcome::Complete(s)) => {
+                        let v = s.message.as_ref().map(|m| m.variant);
+                        rep.class(format!("huge-sentence|{}|t{}|Ok", len, t));
+                        let tf = s.message.as_ref().and_then(|m| m.get("message_type", 255).cloned());
+                        if v != want || want.is_none() {
+                            rep.violation(PID, format!("sentence-type-{}-wrong-variant", t), format!("{} with first character {:?} (type {}) decoded as {:?}, expected {:?}", what, ch as char, t, v, want), || J::s(&what));
+                        } else if tf.is_some() && tf != Some(Val::U(t as u64)) {
+                            rep.violation(PID, format!("type-{}-wrong-type-field", t), format!("{} with first character {:?}: message_type field {:?} for type bits {}", what, ch as char, tf, t), || J::s(&what));
+                        }
+                    }
+                    Call::Done(_) => rep.class(format!("huge-sentence|{}|t{}|Err", len, t)),
+                }
             }
         }
     }
